@@ -130,6 +130,31 @@ CHECKS.update({
     ),
 })
 
+CHECKS.update({
+    "C09": dict(
+        engine="StreamCli", category="model_checking",
+        text=("StreamCli.tla states C09 over observations (ExactlyOnceInOrder, ResumeCursor, RealResponseWithinBudget, CleanFailure, NoTruncatedSurfaced) and models handleSSE/"
+              "processStream/connectSSE/scanEvents per body and per reconnect attempt. TLC proves the invariants exhaustively for the repaired design and exports every single-cut "
+              "and two-cut behaviour and a three-cut family of the as-is model. These behaviours, plus EVERY byte offset of reference SSE bodies x {read error, clean EOF} (session "
+              "level and scanEvents alone), are executed on a real Client/StreamableClientTransport with a scripted RoundTripper under synctest; the TLA+ monitor StreamCliMon judges "
+              "each observation."),
+        design_ref="DESIGN.md section 6 C09, 5.5",
+        note="Trusted: TLC; the scripted server's resume semantics; the harness' byte-to-class classifier (cross-checked by zero drift); the conservative reading of the retry budget; synctest quiescence.",
+        technique="TLA+ spec + TLC exhaustive design check; TLC-generated fault scripts and a complete byte-offset enumeration replayed on the real client under virtual time; TLA+ monitor",
+    ),
+    "C19": dict(
+        engine="Codec", category="exploration",
+        text=("CodecDefs.tla enumerates the message, wire-shape, content-value, required-member and case-sensitivity class products and transcribes DecodeMessage (Classify) and the "
+              "encode/decode rules as code-shaped expectations; TLC checks the tables' design and exports the complete products (67k cases). The Go harness concretises every class with "
+              "seeded values, runs the real EncodeMessage/DecodeMessage, ioConn over pipes, writeEvent/scanEvents, the protocol types' JSON methods and real sessions, and records "
+              "per-member comparison results that the TLA+ monitor CodecMon judges (RoundTrip, Preserve, CaseSensitive, RequiredPresent, NeverPanics); byte-level fidelity itself is "
+              "compared in Go, classes (not all values) are exhaustive; plus seeded fuzzing of ten decoders."),
+        design_ref="DESIGN.md section 6 C19, section 7",
+        note="Trusted: TLC; the harness' field-wise JSON comparator (exact numbers via big.Rat); seeded representatives per class; reader-goroutine panics surface only as a process crash.",
+        technique="TLA+ decision tables enumerated by TLC; all cases replayed on the real codec and framing; TLA+ monitor; seeded decoder fuzzing",
+    ),
+})
+
 NOT_YET = "check not built yet in this round (planned with the same technique; see DESIGN.md section 6)"
 
 def main():
